@@ -805,6 +805,17 @@ pub fn tracking() -> bool {
     arena() != 0
 }
 
+/// The byte the harness dirties the stack with under the current script
+/// (`None`: leave the stack alone).
+pub fn stack_pattern() -> Option<u8> {
+    match st().cfg.fill {
+        Fill::Zero => Some(0),
+        Fill::PatternAA => Some(0xAA),
+        Fill::Random => Some(0x5B | (st().cfg.alloc_seed as u8 & 0xA4)),
+        Fill::Stale => None,
+    }
+}
+
 pub fn set_op(i: u32) {
     st().cur_op = i;
 }
